@@ -20,7 +20,7 @@ func init() {
 			"mutations are also made from inside running handlers (self-removal, removal of first/middle/last/only sibling, registration under the same name, another name, another letter case): they must not disturb the siblings of the " +
 			"current event and take effect for later events. Concurrent phase: 8 goroutines mutate while events flow; with call/return ticks a handler whose registration returned before the event's bytes were handed to the transport must " +
 			"see it, one whose Remove returned before that must not, everything else may. A marker that is never reached is judged by a dead-state proof; the race detector watches hSet/hNode. " +
-			"Event names are drawn per history: three alphabetic names of 2..9 letters (one letter rotating through the alphabet with the case index) in lower / UPPER / PRNG-mixed case, one numeric without built-in meaning; every third history uses fixed names. Teardown rounds: 20..100 events still being dispatched when the connection ends (Close, EOF, read error); per event the background handlers run exactly as often as the foreground handler. distinct_nontrivial = distinct (operation, list position, inside/outside a handler, set, case variant differs) tuples exercised, plus must/must-not judgement kinds in the concurrent phase.",
+			"Event names are drawn per history: three alphabetic names of 2..9 letters (one letter rotating through the alphabet with the case index) in lower / UPPER / PRNG-mixed case, one numeric without built-in meaning; every third history uses fixed names. Teardown rounds: 20..100 events still being dispatched when the connection ends (Close, EOF, read error); per event the background handlers run exactly as often as the foreground handler. Same-value rounds: one pointer-typed handler registered 2..6 times in one or both sets under case variants of a name, removed one registration at a time; in the teardown rounds handlers register further handlers after the cause was injected. distinct_nontrivial = distinct (operation, list position, inside/outside a handler, set, case variant differs) tuples exercised, plus must/must-not judgement kinds in the concurrent phase.",
 		Assumptions: []string{"each Remover is used once", "foreground handlers mutate only the foreground set from inside handlers, background handlers only the background set (cross-set mutations during the same event are 'may' by the statement)"},
 		RaceClaim:   func(rep string) bool { return raceBothIn(rep, "client.(*hSet)", "client.(*hNode)") },
 		Plan: func(tier string, seed int64) []Batch {
